@@ -497,7 +497,9 @@ var rootCtx = []string{"%s", "%s | [@, @]", "%s || `0`", "`[]` || %s", "%s && `1
 	"%s.a", "%s[0]", "%s[*].a", "!%s", "%s == a", "a != %s", "(%s)", "%s[]", "%s[?@]", "%s[1:]", "type(%s)", "[%s][0]", "%s.*", "length(to_array(%s))",
 	"sort_by(to_array(%s), &to_string(@))", "[a, %s].b", "merge({x: %s}, {y: %s})",
 	// a repeated key: whichever member wins, the rule cannot depend on how a member is written
-	"{k: %s, k: a}", "{k: a, k: %s}", "{k: %s, k: `1`}", "{k: `1`, k: %s}", "{k: %s, j: a, k: b}.k"}
+	"{k: %s, k: a}", "{k: a, k: %s}", "{k: %s, k: `1`}", "{k: `1`, k: %s}", "{k: %s, j: a, k: b}.k",
+	// the hole in a branch that is never evaluated (an implementation that judges literal arguments early)
+	"`1` || abs(%s)", "`false` && abs(%s)", "`1` || length(%s)", "`[]` && join(%s, %s)", "[`1` || abs(%s), `null` && sum(%s)]", "not_null(`1`, abs(%s))"}
 
 // predSubst: Search(C[S], d) == Search(C[literal(Search(S, d))], d); Extra = {ctx}.
 func predSubst(c Case) (r Result) {
